@@ -128,6 +128,11 @@ class StreamMonitor:
             h = self.hist[c.self] = Hist()
         self.rec.count("compute_chunk_calls")
         if c.exc is not None:
+            if isinstance(c.exc, ValueError) and c.state is not None and not np.issubdtype(c.state.dtype, np.floating):
+                # a documented refusal (a chunk that is not of a floating type): it is not part of the signal, and the
+                # stream goes on as if the call had not been made
+                self.rec.count("refused_non_float_chunks_ignored")
+                return
             h.error = c.exc
             return
         h.ins.append(c.state)
@@ -361,6 +366,41 @@ def run_case(case, rec, mon=None):
                             comp.finalize()
                         except Exception:
                             pass
+            # always: a refused (integer) chunk before and in the middle of an ordinary utterance
+            x = gen.signal(rng, int(comp.frame_length + 2 * comp.frame_shift + 3), "noise")
+            x.setflags(write=False)
+            parts = [p for p in gen.composition(rng, len(x)) if p] or [len(x)]
+            pos = 0
+            try:
+                for k, n in enumerate(parts):
+                    if k in (0, len(parts) // 2) and isinstance(comp, C.ShortIntegrationFrameComputer):  # (integer chunks are only specified for this class: refused)
+                        try:
+                            comp.compute_chunk(np.arange(3 + k, dtype=np.int32))
+                            rec.count("integer_chunks_accepted")
+                        except ValueError:
+                            pass
+                    comp.compute_chunk(x[pos:pos + n])
+                    pos += n
+                comp.finalize()
+            except Exception:
+                try:
+                    comp.finalize()
+                except Exception:
+                    pass
+            # always: an utterance too short for a frame (but not empty) right before an ordinary one, on the same object
+            fl_, fs_ = comp.frame_length, comp.frame_shift
+            for N1 in sorted({1, max(1, fs_ // 2 - 1)}):
+                for N in (N1, fl_ + 3 * fs_ + 1):
+                    x = gen.signal(rng, int(N), "noise_big" if N == N1 else "noise")
+                    x.setflags(write=False)
+                    try:
+                        stream(comp, x, gen.composition(rng, int(N)))
+                    except Exception:
+                        try:
+                            comp.finalize()
+                        except Exception:
+                            pass
+                rec.count("too_short_then_ordinary_utterance_pairs")
             rec.sample({"kind": kind, "cfg": cfg, "lengths": [int(n) for n in pick], "last_composition": parts[:30]})
     elif kind == "interleave":
         # two computers built from equal configurations (one per channel, say) and fed alternately: each stream
